@@ -48,8 +48,10 @@ impl Backend {
                 // Selection range is the fixture name
                 let selection_range = Self::create_range(line, start_char, line, end_char);
 
-                // Full range includes the entire function body
-                let end_line = Self::internal_line_to_lsp(definition.end_line);
+                // Full range includes the entire function body: it runs to the start of the
+                // line after the definition's last line, so that it always contains the
+                // selection range (also for one-line and assignment-style fixtures).
+                let end_line = Self::internal_line_to_lsp(definition.end_line) + 1;
                 let range = Self::create_range(line, 0, end_line, 0);
 
                 // Build detail string with return type if available
